@@ -357,4 +357,33 @@ theorem runXA_async_call (h : Nested) (m : Machine) (x : Ctx) (ph : Phase) (ev :
   simp only [Expected.execAsyncCall, runXA]
   exact callEach_runGroup h m x ph _ (fun v => (wrapper_meaning m.truthy v true).2.2.2) rfl _
 
+/-! ## Entry points -/
+
+/-- calling a bound event is: put the trigger, run the processing loop, hand back what the loop returns — the model's
+`send` -/
+theorem runE_send (m : Machine) (o : Opts) (fuel : Nat) (e : EventId) :
+    runE (process m o fuel) e Expected.eventCall none = send m o fuel e := by
+  simp [Expected.eventCall, runE, send]
+
+/-- `sm.send(name)` resolves the name to an event bound to this machine — the declared one, or an ad-hoc one for an
+undeclared name — and calls it: `send()`, the event method, an item of `events` / `allowed_events` are one entry
+point (C13), also for names that are no events -/
+theorem runS_send (m : Machine) (o : Opts) (fuel : Nat) (e : EventId) :
+    runS (fun e => runE (process m o fuel) e Expected.eventCall none) e Expected.smSend none = send m o fuel e := by
+  simp [Expected.smSend, runS, runE_send]
+
+/-- `BaseEngine.start` queues the engine's own activation trigger iff the model holds no state -/
+theorem runStart_start : runStart Expected.engineStart = start := by
+  unfold start
+  simp only [Expected.engineStart, runStart]
+  refine bind_congr fun cfg => ?_
+  cases cfg.cur <;> simp
+
+/-- the names stripped from the caller's keywords (`Event.__call__`) are exactly the names `EventData` injects
+(`extended_kwargs`), eight of them: a user value never shadows a built-in, and nothing else is taken away (C07) -/
+theorem reserved_eq_injected :
+    Expected.reservedNames = Expected.injectedNames ∧ Expected.reservedNames.length = 8 ∧
+    Expected.reservedNames.Nodup := by decide
+
 end SMV.Src
+
